@@ -183,6 +183,10 @@ pub struct Stats {
 }
 
 impl Stats {
+    /// Findings are capped per property, so that a flood of findings of one property cannot hide another's.
+    pub fn room(&self, prop: &str, max: usize) -> bool {
+        self.findings.iter().filter(|(f, _)| f.property == prop).count() < max
+    }
     pub fn bump(&mut self, k: &str) {
         *self.hist.entry(k.to_string()).or_insert(0) += 1;
     }
@@ -358,7 +362,7 @@ pub fn bfs(sut: &dyn Sut, out: &mut dyn Write, limits: &Limits) -> Stats {
                 st.samples.push(format!("{} | {} => {} | {}", hex(&pre), op.text(), o.result, hex(&post)));
             }
             for fi in f {
-                if st.findings.len() < limits.max_findings {
+                if st.room(fi.property, limits.max_findings) {
                     let mut h = history_of(&parents, next);
                     h.push(op.text());
                     st.findings.push((fi, h));
@@ -439,7 +443,7 @@ pub fn random(
                 st.samples.push(format!("history {}: {}", h, hist.join(", ")));
             }
             for fi in f {
-                if st.findings.len() < limits.max_findings {
+                if st.room(fi.property, limits.max_findings) {
                     st.findings.push((fi, hist.clone()));
                 }
             }
@@ -461,7 +465,7 @@ pub fn random(
                                 Some(j) => format!("one long-lived handle answers `{}` with {} but re-opening before every operation gives {}", seg_ops[j].text(), res[j], seg_res[j]),
                                 None => format!("after {} operations through one long-lived handle the bytes differ from re-opening before every operation", seg_ops.len()),
                             };
-                            if st.findings.len() < limits.max_findings {
+                            if st.room("C04", limits.max_findings) {
                                 st.findings.push((Finding { property: "C04", what }, hist.clone()));
                             }
                         }
@@ -474,7 +478,7 @@ pub fn random(
             cur = post;
         }
         st.histories += 1;
-        if st.findings.len() >= limits.max_findings {
+        if st.findings.len() >= 6 * limits.max_findings {
             break;
         }
     }
@@ -554,7 +558,7 @@ pub fn multi_script(sut: &dyn Sut, cases: &[(Vec<Op>, Vec<Op>)], out: &mut dyn W
             cur_id = sid;
             sid += 1;
             for fi in f {
-                if st.findings.len() < limits.max_findings {
+                if st.room(fi.property, limits.max_findings) {
                     st.findings.push((fi, hist.clone()));
                 }
             }
@@ -585,7 +589,7 @@ pub fn multi_script(sut: &dyn Sut, cases: &[(Vec<Op>, Vec<Op>)], out: &mut dyn W
                 st.samples.push(format!("shape built by [{}] then {} => {}", hist.join(", "), op.text(), o.result));
             }
             for fi in f {
-                if st.findings.len() < limits.max_findings {
+                if st.room(fi.property, limits.max_findings) {
                     let mut h = hist.clone();
                     h.push(op.text());
                     st.findings.push((fi, h));
